@@ -46,6 +46,17 @@ class Lin:
             return Lin(0)
         return Lin(self.c * k, {s: v * k for s, v in self.t.items()})
 
+    def subst(self, name, repl):
+        """self with symbol `name` replaced by the linear form repl"""
+        k = self.t.get(name)
+        if not k:
+            return self
+        rest = Lin(self.c, {s: v for s, v in self.t.items() if s != name})
+        return rest + repl.scale(k)
+
+    def symbols(self):
+        return set(self.t)
+
     def is_const(self):
         return not self.t
 
@@ -335,3 +346,298 @@ def _run2(stmts, env, events, assumptions, on_call):
             continue
         raise NotAffine("statement %s" % k)
     return "end"
+
+
+# ------------------------------------------------------------------------------------------------ copy functions
+#
+# analyse_copy(): a function that copies a source range into a cursor-addressed buffer in pieces.  Ghost G = bytes
+# copied so far.  Obligations: every memcpy writes at the cursor, reads from source + G, copies no more than is free, and is
+# followed by the matching cursor update; at every return G equals the size.  Loops are handled by the invariant
+# "source expression == source + G" (and "remainder expression == size - G" when the loop has one): checked on entry,
+# assumed for an arbitrary iteration (loop-written variables become fresh symbols, one of them solved from the invariant),
+# checked again at the end of the iteration.  Values the domain cannot express (division, modulo, calls) become opaque
+# symbols; an obligation that depends on one is *unknown*, never a failure.
+
+class Choice(Exception):
+    def __init__(self, node):
+        self.node = node
+
+
+def analyse_copy(body, src_param, size_param, is_avail, is_cursor, classify_call, av_key, mp_key, max_runs=200):
+    """Returns (problems, returns, notes): problems = [(line, text, definite)], returns = [(G, assumptions, decided)]"""
+    problems = []
+    returns = []
+    notes = []
+    seen_problem = set()
+    SRC, SIZE = Lin.sym(src_param), Lin.sym(size_param)
+    fresh = [0]
+
+    def opaque(l):
+        return any("@" in s_ for s_ in l.symbols())
+
+    def problem(line, text, definite):
+        k_ = (line, text)
+        if k_ not in seen_problem:
+            seen_problem.add(k_)
+            problems.append((line, text, definite))
+
+    def loop_exprs(lp):
+        src_e = rem_e = None
+        for x in ir.walk(lp.get("body")):
+            if x.get("k") == "Call" and ir.callee_name(x) == "memcpy" and len(x.get("args", [])) == 3 and src_e is None:
+                src_e = x["args"][1]
+            if x.get("k") == "Call" and (ir.callee_qn(x) or "").split("<")[0] == "std::min" and len(x.get("args", [])) == 2:
+                a0, a1 = x["args"]
+                if is_avail(a0):
+                    rem_e = rem_e or a1
+                elif is_avail(a1):
+                    rem_e = rem_e or a0
+        cu = unwrap(lp.get("cond")) if lp.get("cond") is not None else None
+        if isinstance(cu, dict) and cu.get("k") == "Bin" and cu.get("op") in ("<", "<=", ">", ">="):
+            if is_avail(cu["lhs"]):
+                rem_e = cu["rhs"]
+            elif is_avail(cu["rhs"]):
+                rem_e = cu["lhs"]
+        return src_e, rem_e
+
+    class St:
+        def __init__(self):
+            self.env = {}
+            self.G = Lin(0)
+            self.asm = ()
+            self.pending = None
+            self.choices = {}
+
+    opaque_memo = {}
+
+    def evx(e, st):
+        try:
+            return ev2(e, st.env, st.asm)
+        except NotAffine:
+            # the same expression over the same variable values is the same (unknown) number
+            keys = sorted(set(k_ for k_ in (key_of(x) for x in ir.walk(e)) if k_))
+            mk = (ir.show(e), tuple((k_, repr(st.env.get(k_))) for k_ in keys))
+            if mk not in opaque_memo:
+                fresh[0] += 1
+                opaque_memo[mk] = Lin.sym("v%d@opaque" % fresh[0])
+            return opaque_memo[mk]
+
+    def truth(c, st):
+        try:
+            return cond_truth(c, st.env, st.asm)
+        except NotAffine:
+            if id(c) in st.choices:
+                return st.choices[id(c)]
+            raise Choice(c)
+
+    def do_call(u, st):
+        kind = classify_call(u)
+        line = u.get("l", 0)
+        if kind == "memcpy":
+            a = u["args"]
+            dst, sv, n = evx(a[0], st), evx(a[1], st), evx(a[2], st)
+            cur = st.env.get(mp_key, Lin.sym(mp_key))
+            av = st.env.get(av_key, Lin.sym(av_key))
+            if dst != cur:
+                problem(line, "memcpy writes to %r, the cursor stands at %r" % (dst, cur), not opaque(dst - cur))
+            want = SRC + st.G
+            if sv != want:
+                d = sv - want
+                problem(line, "memcpy reads from %r but %r bytes have been copied so far: the next byte to copy is at %r" % (sv, st.G, want), not opaque(d))
+            fits = sign_of(av - n, st.asm)
+            if fits not in ("==0", ">0", ">=0"):
+                problem(line, "memcpy copies %r bytes while %r are free" % (n, av), not opaque(av - n) and fits in ("<0",))
+            st.pending = (n, line)
+            return True
+        if kind == "update":
+            n = evx(u["args"][0], st)
+            if st.pending is None or st.pending[0] != n:
+                problem(line, "update_buffer(%r) does not match the copy before it (%r)" % (n, st.pending[0] if st.pending else None),
+                        st.pending is not None and not opaque(n - st.pending[0]))
+            if st.pending is not None:
+                st.G = st.G + st.pending[0]
+            st.pending = None
+            st.env[mp_key] = st.env.get(mp_key, Lin.sym(mp_key)) + n
+            st.env[av_key] = st.env.get(av_key, Lin.sym(av_key)) - n
+            return True
+        if kind == "flush":
+            st.env[mp_key] = Lin.sym("buffer-start")
+            st.env[av_key] = Lin.sym("buffer-capacity")
+            return True
+        return False
+
+    def run(stmts, st):
+        for s in stmts:
+            u = unwrap(s)
+            if not isinstance(u, dict):
+                continue
+            k = u.get("k")
+            if k == "Block":
+                r = run(u.get("s", []), st)
+                if r != "end":
+                    return r
+            elif k == "Null":
+                continue
+            elif k == "If":
+                br = u.get("then") if truth(u["cond"], st) else u.get("else")
+                if br is not None:
+                    r = run(ir.stmts(br), st)
+                    if r != "end":
+                        return r
+            elif k == "Break":
+                return "break"
+            elif k == "Continue":
+                return "continue"
+            elif k == "Return":
+                if st.pending is not None:
+                    problem(u.get("l", 0), "a copy is not followed by update_buffer before the function returns", True)
+                d = st.G - SIZE
+                sg = sign_of(d, st.asm)
+                returns.append((st.G, st.asm, True if sg == "==0" else (None if opaque(d) else False)))
+                return "return"
+            elif k == "Decl":
+                for v in u.get("vars", []):
+                    if "n" in v:
+                        key = "l:%s#%s" % (v["n"], v["id"])
+                        st.env[key] = evx(v["init"], st) if v.get("init") is not None else Lin.sym(key + "@uninit")
+            elif k == "Bin" and u.get("op", "").endswith("=") and u["op"] not in ("==", "!=", "<=", ">="):
+                key = key_of(u.get("lhs"))
+                if key is None:
+                    raise NotAffine("assignment to %s" % ir.show(u.get("lhs")))
+                if u["op"] == "=":
+                    st.env[key] = evx(u["rhs"], st)
+                elif u["op"] in ("+=", "-="):
+                    cur = evx(u["lhs"], st)
+                    r_ = evx(u["rhs"], st)
+                    st.env[key] = cur + r_ if u["op"] == "+=" else cur - r_
+                else:
+                    fresh[0] += 1
+                    st.env[key] = Lin.sym("v%d@opaque" % fresh[0])
+            elif k == "Un" and u.get("op") in ("pre++", "post++", "pre--", "post--"):
+                key = key_of(u.get("e"))
+                if key is None:
+                    raise NotAffine("update")
+                st.env[key] = evx(u["e"], st) + Lin(1 if "++" in u["op"] else -1)
+            elif k in ("Call", "MCall", "OpCall"):
+                if do_call(u, st) is False:
+                    raise NotAffine("call %s" % ir.show(u)[:50])
+            elif k in ("While", "For", "Do"):
+                r = run_loop(u, st)
+                if r != "end":
+                    return r
+            else:
+                raise NotAffine("statement %s" % k)
+        return "end"
+
+    def run_loop(lp, st):
+        k = lp["k"]
+        if k == "For" and lp.get("init") is not None:
+            run([lp["init"]], st)
+        src_e, rem_e = loop_exprs(lp)
+        body = ir.stmts(lp.get("body")) + ([lp["inc"]] if k == "For" and lp.get("inc") is not None else [])
+        line = lp.get("l", 0)
+        # phase selection is a choice point: 'base' (first iteration from the real state), 'step' (arbitrary iteration)
+        phase = st.choices.get(("phase", id(lp)))
+        if phase is None:
+            raise Choice(("phase", id(lp)))
+        if phase == "base":
+            # invariants on entry
+            if src_e is not None:
+                d = evx(src_e, st) - (SRC + st.G)
+                if d != Lin(0) and sign_of(d, st.asm) != "==0":
+                    problem(line, "on entry to the loop the source expression %s stands at %r but %r bytes have been copied: the loop "
+                            "starts reading at the wrong place" % (ir.show(src_e), evx(src_e, st), st.G), not opaque(d))
+            if rem_e is not None:
+                d = evx(rem_e, st) - (SIZE - st.G)
+                if d != Lin(0) and sign_of(d, st.asm) != "==0":
+                    problem(line, "on entry to the loop the remainder %s is %r but %r bytes are left" % (ir.show(rem_e), evx(rem_e, st), SIZE - st.G), not opaque(d))
+            if k != "Do" and lp.get("cond") is not None and not truth(lp["cond"], st):
+                return "end"           # zero iterations: straight to what follows
+            r = run(body, st)
+            return "stop" if r in ("end", "continue") else ("end" if r == "break" else r)
+        # ---- arbitrary iteration: havoc what the loop writes, assume the invariants
+        written = set(ir.written_locals(lp)) | {av_key, mp_key}
+        fresh[0] += 1
+        tag = "~%d" % fresh[0]
+        for key in sorted(written):
+            st.env[key] = Lin.sym(key + tag)
+        Gh = Lin.sym("G" + tag)
+        st.G = Gh
+        st.pending = None
+
+        def solve(expr, target):
+            """make ev(expr) == target hold by solving for one havoc'd symbol of expr"""
+            cur = evx(expr, st)
+            d = cur - target
+            cand = [s_ for s_ in d.symbols() if s_.endswith(tag) and s_ != "G" + tag]
+            if not cand:
+                return d == Lin(0)
+            x = sorted(cand)[0]
+            kx = d.t[x]
+            from fractions import Fraction
+            repl = (Lin(d.c, {s_: v for s_, v in d.t.items() if s_ != x})).scale(Fraction(-1, 1) / kx)
+            for key in list(st.env):
+                st.env[key] = st.env[key].subst(x, repl)
+            return True
+        if src_e is not None:
+            solve(src_e, SRC + Gh)
+        if rem_e is not None:
+            solve(rem_e, SIZE - Gh)
+        if k != "Do" and lp.get("cond") is not None and not truth(lp["cond"], st):
+            return "end"               # the loop is left from an arbitrary iteration: go on with what follows
+        r = run(body, st)
+        if r == "break":
+            return "end"
+        if r == "return":
+            return r
+        # invariants preserved?
+        if src_e is not None:
+            d = evx(src_e, st) - (SRC + st.G)
+            if d != Lin(0) and sign_of(d, st.asm) != "==0":
+                problem(line, "after a round the source expression %s stands at %r, %r bytes have been copied" % (ir.show(src_e), evx(src_e, st), st.G), not opaque(d))
+        if rem_e is not None:
+            d = evx(rem_e, st) - (SIZE - st.G)
+            if d != Lin(0) and sign_of(d, st.asm) != "==0":
+                problem(line, "after a round the remainder %s is %r, %r bytes are left" % (ir.show(rem_e), evx(rem_e, st), SIZE - st.G), not opaque(d))
+        return "stop"
+
+    # ---- driver: depth-first over assumption splits and choices
+    work = [((), {})]
+    runs = 0
+    while work:
+        asm, choices = work.pop()
+        runs += 1
+        if runs > max_runs:
+            notes.append("exploration cut after %d runs" % max_runs)
+            break
+        st = St()
+        st.asm = asm
+        st.choices = choices
+        try:
+            r = run(ir.stmts(body), st)
+            if r == "end":
+                d = st.G - SIZE
+                sg = sign_of(d, st.asm)
+                returns.append((st.G, st.asm, True if sg == "==0" else (False if not opaque(d) else None)))
+        except NeedSplit as ns:
+            cur = sign_of(ns.d, asm)
+            options = {None: ("<0", ">=0"), ">=0": ("==0", ">0"), "<=0": ("<0", "==0"), "!=0": ("<0", ">0")}.get(cur)
+            if options is None:
+                notes.append("comparison stays open")
+                continue
+            rest = tuple(a for a in asm if a[0] != ns.d and a[0] != -ns.d)
+            for rel in options:
+                work.append((rest + ((ns.d, rel),), dict(choices)))
+        except Choice as ch:
+            node = ch.node
+            if isinstance(node, tuple) and node[0] == "phase":
+                for ph in ("base", "step"):
+                    c2 = dict(choices)
+                    c2[node] = ph
+                    work.append((asm, c2))
+            else:
+                for val in (True, False):
+                    c2 = dict(choices)
+                    c2[id(node)] = val
+                    work.append((asm, c2))
+    return problems, returns, notes
